@@ -39,7 +39,7 @@ class FakePattern(object):
     def __init__(self, fn):
         self.fn = fn
 
-    def GetQueryMatches(self, mol, debug=0):
+    def GetQueryMatches(self, mol, debug=0, **kw):
         return tuple(self.fn(mol))
 
     def __str__(self):
@@ -303,6 +303,7 @@ def obligations(tier, seed):
         obs.append(dict(name='decompose_n%d_P%d_f%d' % (n, P, bits), func='h_decompose', param=dict(n=n, P=P, fix=fix), timeout=to))
     for i in range(0, 24, 1 if not q else 3):
         obs.append(dict(name='descr_i%d' % i, func='h_descr', param=dict(N=24, size=2, fix=dict(i=i)), timeout=to))
+    obs.append(dict(name='descr_molquery', func='h_descr_molquery', param={}, timeout=to))
     for (i, j) in ((0, 8), (3, 5)):
         # two patterns feeding one descriptor name (the second one matching or not): counts add up
         obs.append(dict(name='descr_dupname_%d_%d' % (i, j), func='h_descr', param=dict(N=24, size=2, dupname=True, fix=dict(i=i, j=j)), timeout=to))
@@ -345,3 +346,48 @@ def validate(tier, seed):
     bt = sorted(set(str(b.GetBondType()) for b in mol.GetBonds()))
     return [dict(name='reference canonical name vs Group(); ring tuples and bond-type names of RDKit as the fakes model them',
                  ok=not bad and ok_ring and bt == ['DOUBLE', 'SINGLE'], n=6, detail='bad=%r rings=%r bondtypes=%r' % (bad, rings, bt))]
+
+
+def h_descr_molquery(d: bool):
+    """
+    post: _[0]
+    """
+    begin()
+    # Scheme + the real MolQuery filter together: the embeddings RDKit reports for a symmetric pattern are the permutations
+    # of one atom set; the RING constraints (here: on the second pattern atom) decide which permutation survives.  The
+    # descriptor counts once iff SOME permutation satisfies the constraints - whichever order RDKit lists them in.
+    import pgradd.RDkitWrapper.MolQuery as MQ
+    from pgradd.Error import MolQueryError
+    a, b, c = 0, 1, 2
+    perms = [(a, b, c), (a, c, b), (b, a, c), (b, c, a), (c, a, b), (c, b, a)]
+    nperm = choose('nperm', 3)                   # RDKit lists 2, 4 or all 6 permutations ...
+    start = choose('start', 6)                   # ... in some order
+    cands = [perms[(start + k) % 6] for k in range([2, 4, 6][nperm])]
+    passes = [bool(B('second_atom_ok_%d' % k)) for k in range(3)]     # the constraint on pattern atom #2, per molecule atom
+
+    class Cons(MQ.AtomConstraint):
+        def __call__(self, atom):
+            if not passes[atom.idx]:
+                raise MolQueryError('no')
+    with NoTracing():
+        saved = (MQ.Chem, SC.Chem)
+        MQ.Chem = SC.Chem = rf.FakeChem()
+        try:
+            q = MQ.MolQuery()
+            q.AppendAtomConstraint(Cons(), 1)
+            mol = rf.FMol([rf.FAtom(6) for _ in range(3)], [], matcher=lambda m, qq, kw: list(cands))
+            scheme = SC.GroupAdditivityScheme(patterns=[], pretreatment_rules=[], remaps={},
+                                              other_descriptors=[{'name': 'D', 'connectivity': q}],
+                                              smiles_based_descriptors=[], smarts_based_descriptors=[], include=[])
+            try:
+                got = dict(scheme._AssignDescriptor(mol, mol))
+                err = None
+            except Exception as e:
+                got, err = None, type(e).__name__
+        finally:
+            MQ.Chem, SC.Chem = saved
+    if err:
+        return finish(False, 'raised:' + err)
+    want = {'D': 1} if any(passes[p[1]] for p in cands) else {}
+    return finish(got == want, 'descr_molquery: a correction descriptor is lost or double counted depending on the order of the '
+                  'reported embeddings', cands, passes, got)
